@@ -366,7 +366,16 @@ impl<'de> Deserialize<'de> for Image {
                         "missing size".to_owned(),
                     )));
                 };
-                let expected_size = channels * size.height * size.width;
+                let Some(expected_size) = size
+                    .height
+                    .checked_mul(size.width)
+                    .and_then(|area| area.checked_mul(channels))
+                else {
+                    return Err(de::Error::custom(Error::ParseError(
+                        "Image",
+                        "image size is too large".to_owned(),
+                    )));
+                };
                 let data_size = data.len();
                 if data_size != expected_size {
                     return Err(de::Error::custom(Error::ParseError(
@@ -854,12 +863,20 @@ impl ImageHandler for SixelImageHandler {
         let height = (img.height() / 6) * 6;
         // sixel color chanel has a range [0,100] colors, we need to reduce it before
         // quantization, it will produce smaller or/and better palette for this color depth
+        // transparent pixels are composited over the background first, so that the
+        // reduction below is applied to the colors that are actually displayed
+        let bg = self.bg.unwrap_or_else(|| RGBA::new(0, 0, 0, 255));
         let dimg = Image::from(img.view(..height, ..).map(|_, color| {
-            let [red, green, blue, alpha] = color.to_rgba();
+            let color = if color.to_rgba()[3] < 255 {
+                bg.blend_over(*color)
+            } else {
+                *color
+            };
+            let [red, green, blue] = color.to_rgb();
             let red = ((red as f32 / 2.55).round() * 2.55) as u8;
             let green = ((green as f32 / 2.55).round() * 2.55) as u8;
             let blue = ((blue as f32 / 2.55).round() * 2.55) as u8;
-            RGBA::new(red, green, blue, alpha)
+            RGBA::new(red, green, blue, 255)
         }));
         let (palette, qimg) = match dimg.quantize(256, true, self.bg) {
             None => return Ok(()),
